@@ -732,6 +732,17 @@ class Translator:
             if f in self.own_files:
                 t, unk = strip_conditionals(t, self.defines, consts)
                 self.pp_unknown += [(f, u) for u in unk]
+                if self.prefix == "bp.":
+                    # the flavor map (include/urcu/map/urcu-bp.h) renames the generic object names of the .c text; the static
+                    # header functions already use the mapped names, so both must name the same location
+                    try:
+                        mp = strip_comments(open(os.path.join(REPO, "include/urcu/map/urcu-bp.h")).read())
+                    except OSError:
+                        mp = ""
+                    for gen in ("rcu_gp", "rcu_reader"):
+                        mm = re.search(r"^[ \t]*#[ \t]*define[ \t]+%s[ \t]+(\w+)[ \t]*$" % gen, mp, re.M)
+                        if mm:
+                            t = re.sub(r"\b%s\b" % gen, mm.group(1), t)
             self.texts[f] = t
         self.defs = {}          # name -> (params, lean stmt text)
         self.order = []
